@@ -205,7 +205,7 @@ def model(cls, first, content, additional):
                 value = None
             try:
                 r.options[name] = conv(value)
-            except (ValueError, TypeError):
+            except Exception:  # noqa: BLE001 - a converter may reject a value in any way (docutils' figwidth_value(None) raises AttributeError)
                 r.n_invalid += 1
     # arguments
     r.noargs = not (cls.required_arguments or cls.optional_arguments)
@@ -491,6 +491,25 @@ def run_shard(ctx):
     ctx.notes["directive_classes"] = len(keys)
     ctx.notes["directive_classes_sample"] = keys[:5] + keys[-5:]
     ctx.count("programs", len(keys) if ctx.shard == 0 else 0)
+    # 0. every option of every directive class x every sample value (and the empty value), in both option styles: a converter that rejects the
+    #    value in whatever way gives one 'Invalid option value' warning and the rest of the directive is unharmed
+    k0 = n0 = 0
+    for key in keys:
+        spec = CLASSES[key].option_spec or {}
+        for oname in sorted(x for x in spec if isinstance(x, str) and re.fullmatch(r"[A-Za-z][\w-]*", x)):
+            for v in [""] + SAMPLES:
+                k0 += 1
+                if k0 % ctx.nshards != ctx.shard:
+                    continue
+                if (v[:1] in "&*!|>'\"%@`{}[],-?#:" and v != "") or ": " in v or " #" in v:
+                    continue  # values that YAML reads as something else than a plain scalar: C07's business
+                first = "arg" if (CLASSES[key].required_arguments or CLASSES[key].optional_arguments) else ""
+                for content in (f":{oname}: {v}".rstrip() + "\n\nbody line\n", f"---\n{oname}: {v}".rstrip() + "\nclass: c\n---\nbody line\n"):
+                    eval_split(ctx, {"kind": "split", "cls": key, "first": first, "content": content})
+                    n0 += 1
+                ctx.count("option_value_pairs")
+    ctx.case(n=n0)
+    ctx.subrun("every_option_every_sample_value", exhaustive=True, samples=len(SAMPLES) + 1, cases=n0)
     # 1. exhaustive contents per class
     base_len = 3 if quick else 4
     rep_len = 4 if quick else 5
